@@ -47,6 +47,43 @@ def inject(words: list[str]) -> None:
             ATTR_NAMES.append(w)
 
 
+#: integer literals that are new in the source (sizes / lengths / depths / counts a change may compare against)
+THRESHOLDS: list[int] = []
+
+
+def inject_ints(ns: list[int]) -> None:
+    for n in ns:
+        if n not in THRESHOLDS:
+            THRESHOLDS.append(n)
+            if n <= 400 and n not in BOUNDARY_LEVELS:
+                BOUNDARY_LEVELS.extend(k for k in (n - 1, n, n + 1) if k not in BOUNDARY_LEVELS)
+
+
+def spellings(w: str) -> list[str]:
+    """ways a caller could spell an identifier that a new literal may single out: as a Python keyword (`_` for `-` / `:`),
+    camel-cased, and as a prefix of a longer name (a change that tests `startswith`)"""
+    import re as _re
+    base = w.strip("-_:. ")
+    if not base or not _re.fullmatch(r"[A-Za-z][A-Za-z0-9:_.-]*", base):
+        return [w]
+    snake = _re.sub(r"[-:.]", "_", base)
+    parts = [q for q in _re.split(r"[-_:.]", base) if q]
+    camel = parts[0] + "".join(q[:1].upper() + q[1:] for q in parts[1:])
+    out = [w, base, snake, camel, snake + "_", snake + "_x", snake + "_href", camel + "X", camel + "Flex", base + "-x", base + "x", snake + "__"]
+    seen = []
+    for o in out:
+        if o not in seen:
+            seen.append(o)
+    return seen
+
+
+def threshold_text(rng: random.Random) -> str:
+    """a text whose length sits at a size the source has started to mention, with metacharacters in it"""
+    n = rng.choice(THRESHOLDS) + rng.choice([-1, 0, 0, 1, 1, 7])
+    body = rng.choice(["<b>&amp;\"'", "a<b & c>d ", "x&y<z> ", "&lt;i&gt;\r\n"])
+    return (body * (n // len(body) + 1))[:max(n, 1)]
+
+
 def extra_or(rng: random.Random, pool, p: float = 0.3):
     """a new source literal with probability p (when there is one), else a member of the pool"""
     if EXTRA and rng.random() < p:
@@ -56,6 +93,8 @@ def extra_or(rng: random.Random, pool, p: float = 0.3):
 
 def rand_text(rng: random.Random, maxlen: int = 12) -> str:
     r = rng.random()
+    if THRESHOLDS and rng.random() < 0.06:
+        return threshold_text(rng)
     if EXTRA and r < 0.12:
         w = rng.choice(EXTRA)
         return rng.choice([w, w, w + rng.choice(META), rng.choice(META) + w, w.upper(), w + " " + rng.choice(EXTRA)])
